@@ -235,6 +235,17 @@ extern YR_TLS int yr_debug_indent;
 
 typedef struct sigaction sa;
 
+#ifdef YARA_VERIF
+// Verification hook H5: called while exception_handler_mutex is held, right
+// after the use count changed (kind 1 = enter, 2 = leave).
+extern void (*yr_verif_trycatch_hook)(int kind, int usecount);
+#define YR_VERIF_TRYCATCH(kind)               \
+  if (yr_verif_trycatch_hook != NULL)        \
+    yr_verif_trycatch_hook(kind, exception_handler_usecount);
+#else
+#define YR_VERIF_TRYCATCH(kind)
+#endif
+
 #define YR_TRYCATCH(_do_, _try_clause_, _catch_clause_)               \
   do                                                                  \
   {                                                                   \
@@ -254,6 +265,7 @@ typedef struct sigaction sa;
           sigaction(SIGSEGV, &act, &old_sigsegv_exception_handler);   \
       }                                                               \
       exception_handler_usecount++;                                   \
+      YR_VERIF_TRYCATCH(1)                                            \
       pthread_mutex_unlock(&exception_handler_mutex);                 \
       /* Save the current debug indentation level before the jump. */ \
       int yr_debug_indent_before_jump = YR_DEBUG_INDENT_INITIAL;      \
@@ -285,6 +297,7 @@ typedef struct sigaction sa;
         if (CATCH_SIGSEGV)                                            \
           sigaction(SIGSEGV, &old_sigsegv_exception_handler, NULL);   \
       }                                                               \
+      YR_VERIF_TRYCATCH(2)                                            \
       pthread_mutex_unlock(&exception_handler_mutex);                 \
       yr_thread_storage_set_value(&yr_trycatch_trampoline_tls, NULL); \
     }                                                                 \
